@@ -28,7 +28,7 @@ func init() {
 // runC16 is the shard driver: the register of a process cannot be reset, so
 // every history runs in its own child process (this binary, sub-mode C16H).
 func runC16(c *mon.Ctx) {
-	c.Rule("one CHILD PROCESS per history (the register cannot be reset). A history is a seeded random sequence of 12..45 operations over: RegisterProfile(new name, P1- or P2-based - the latter also through a claims type embedding TWO structs, a mixin without profile field first and P2Claims second -, sharing the JSON profile member of its base) / re-register an existing name (base profiles, earlier extras) / register a profile whose claims type has no profile field / has no json tag on it (then register the same name properly) / whose profile field is identified by its name and followed by other fields (register snapshot must record THAT field's JSON member), NewClaims(registered | unregistered), DecodeClaimsFromCBOR / JSON (token of any known or not-yet-registered profile, and documents declaring two profiles at once under the two profile members), mutate one instance (setters, writes through its pointer fields and byte slices, container Add/Replace, canonical-name overwrite), observe another. 0..8 extra profiles per history. Offline-style trace checker with model = set of successfully registered names: after EVERY registration attempt the register snapshot (hook H1) must equal the model (failed attempt: unchanged; successful: grown by exactly that entry) and a probe battery (NewClaims + CBOR decode + JSON decode for every name of the universe, registered or not) must be unchanged for every name other than the one just registered and must follow the model for that one; every created/decoded instance is a new pointer with its own container / profile pointers and its observation is unaffected by any mutation of another instance; every JSON dispatch is repeated 40x and all repetitions must agree on (error?, type, canonical profile, observation); hook H3 records the register visit order of each dispatch. Inconclusive if fewer than 2 distinct visit orders were seen. distinct_nontrivial = distinct operation-kind sequences")
+	c.Rule("one CHILD PROCESS per history (the register cannot be reset). A history is a seeded random sequence of 12..45 operations over: RegisterProfile(new name, P1- or P2-based - the latter also through a claims type embedding TWO structs, a mixin without profile field first and P2Claims second -, sharing the JSON profile member of its base) / re-register an existing name (base profiles, earlier extras) / register a profile whose claims type has no profile field / has no json tag on it (then register the same name properly) / whose profile field is identified by its name and followed by other fields (register snapshot must record THAT field's JSON member), NewClaims(registered | unregistered), DecodeClaimsFromCBOR / JSON (token of any known or not-yet-registered profile, documents declaring two profiles at once under the two profile members, and documents carrying a profile name under the OTHER base profile's member), mutate one instance (setters, writes through its pointer fields and byte slices, container Add/Replace, canonical-name overwrite), observe another. 0..8 extra profiles per history. Offline-style trace checker with model = set of successfully registered names: after EVERY registration attempt the register snapshot (hook H1) must equal the model (failed attempt: unchanged; successful: grown by exactly that entry) and a probe battery (NewClaims + CBOR decode + JSON decode for every name of the universe, registered or not) must be unchanged for every name other than the one just registered and must follow the model for that one; every created/decoded instance is a new pointer with its own container / profile pointers and its observation is unaffected by any mutation of another instance; every JSON dispatch is repeated 40x and all repetitions must agree on (error?, type, canonical profile, observation); hook H3 records the register visit order of each dispatch. Inconclusive if fewer than 2 distinct visit orders were seen. distinct_nontrivial = distinct operation-kind sequences")
 	self, err := os.Executable()
 	if err != nil {
 		c.Inconclusive("cannot locate own executable: " + err.Error())
@@ -233,6 +233,30 @@ func runC16History(c *mon.Ctx) {
 			if cd.base == 2 {
 				both("(P1 and "+cd.name+" declared)", cd.name)
 			}
+		}
+	}
+	{
+		// documents that carry a (registered or not-yet-registered) profile NAME under
+		// the profile member of the OTHER base profile: no (member, value) pair of the
+		// register matches, whatever gets registered later under its proper member
+		cross := func(name string, base int) {
+			a := g.Valid(base)
+			a.Canon, a.Profile = name, nil
+			other := "psa-profile"
+			if base == 1 {
+				other = "eat-profile"
+			}
+			ms := append(a.JSONMembers(), model.Member{Name: other, Value: `"` + name + `"`})
+			universe = append(universe, &c16Cand{name: "(cross-member: " + name + " under " + other + ")", base: base, cbor: refcbor.Encode(a.WireCBOR()), json: model.MembersJSON(ms)})
+		}
+		cross(model.P1Name, 1)
+		cross(model.P2Name, 2)
+		for _, cd := range cands[:4] {
+			b := cd.base
+			if b == 3 {
+				b = 2
+			}
+			cross(cd.name, b)
 		}
 	}
 	{
